@@ -1,6 +1,6 @@
 #!/bin/bash
 # usage: tools/seedquick5.sh C01 ...  round-11 seeds (/tmp/wt/r11-<id>/patch{1,2}) are recorded as <id>-21 / <id>-22; target check only
-cd /verif
+cd "$(dirname "$0")/.."
 for id in "$@"; do
   for i in 1 2; do
     d=/tmp/wt/r11-$id
